@@ -218,3 +218,27 @@ Theorem C01_distributions_py_accumulate_pointwise :
        (evalM (vlsz n k) (denCk n k Rs Ss) (vl (mx_of n n Slast) (rwd n Rs) k) t)) ts.
 Proof. exact: source_accumulate_pointwise. Qed.
 Print Assumptions C01_distributions_py_accumulate_pointwise.
+
+(* the moments of every order transfer along a lumping that holds in EVERY epoch (labelled coalescent -> the state space in use):
+   stated about the translated _accumulate, any demography, any list of end times; the two objects may use different non-zero
+   regularisation factors *)
+From PG Require Import analysis.SourceLumpMoments.
+Theorem C01_distributions_py_moments_transfer_along_lumping :
+  forall expm : seq (seq R) -> seq (seq R),
+    (forall n A, wf n n A -> wf n n (expm A) /\ mx_of n n (expm A) = mexp (mx_of n n A)) ->
+  forall (regfL regfC : seq (seq R) -> R) (m n k : nat) (P : seq (seq R))
+         (SsL : seq (Q * seq (seq R))) (SlastL : seq (seq R)) (SsC : seq (Q * seq (seq R))) (SlastC : seq (seq R))
+         (RsL RsC : seq (seq R)) (alphaL : seq R) (ts : seq Q),
+    regfL (List.hd (None, SlastL) (all_epochs SsL SlastL)).2 <> 0%R ->
+    regfC (List.hd (None, SlastC) (all_epochs SsC SlastC)).2 <> 0%R ->
+    wf m n P -> wf m m SlastL -> wf n n SlastC ->
+    List.Forall2 (lump_rel m n P) SsL SsC ->
+    mmul OpsR SlastL P = mmul OpsR P SlastC ->
+    (forall i, (i < k)%N -> mmul OpsR (diagm OpsR (nth [::] RsL i)) P = mmul OpsR P (diagm OpsR (nth [::] RsC i))) ->
+    mvec OpsR P (ones OpsR n) = ones OpsR m ->
+    (forall i, (i < k)%N -> size (nth [::] RsL i) = m) -> (forall i, (i < k)%N -> size (nth [::] RsC i) = n) ->
+    size alphaL = m ->
+    PhaseTypeDistribution_accumulate OpsR expm regfL (length SlastL) k (all_epochs SsL SlastL) RsL alphaL ts
+    = PhaseTypeDistribution_accumulate OpsR expm regfC (length SlastC) k (all_epochs SsC SlastC) RsC (vmat OpsR alphaL P) ts.
+Proof. exact: source_accumulate_lumping. Qed.
+Print Assumptions C01_distributions_py_moments_transfer_along_lumping.
